@@ -526,19 +526,36 @@ func finish(check *Check, tier string, st *Stats, scs []*Scenario, start time.Ti
 			// the race detector reports a given pair of stacks once per process: confirm in fresh processes
 			os.MkdirAll(replayDir, 0755)
 			tmp := filepath.Join(replayDir, fmt.Sprintf(".confirm-%d.json", os.Getpid()))
-			js, _ := json.Marshal(v)
-			os.WriteFile(tmp, js, 0644)
 			exe, _ := os.Executable()
-			for rep := 0; rep < 2; rep++ {
-				out, err := exec.Command(exe, "--replay", tmp).CombinedOutput()
-				ee, isExit := err.(*exec.ExitError)
-				if !isExit || ee.ExitCode() != 1 || !strings.Contains(string(out), "signature="+sigToken(v.Signature)) {
-					v.Signature = "unstable:" + v.Signature
-					v.Detail = "NOT REPRODUCIBLE IN A FRESH PROCESS from its schedule alone.\n" + v.Detail
+			candidates := append([][]int{v.Choices}, v.Alts...)
+			confirmed := false
+			var lastOut []byte
+			for _, cand := range candidates {
+				vv := *v
+				vv.Choices, vv.Labels, vv.Alts = cand, nil, nil
+				js, _ := json.Marshal(&vv)
+				os.WriteFile(tmp, js, 0644)
+				okBoth := true
+				for rep := 0; rep < 2; rep++ {
+					out, err := exec.Command(exe, "--replay", tmp).CombinedOutput()
+					lastOut = out
+					ee, isExit := err.(*exec.ExitError)
+					if !isExit || ee.ExitCode() != 1 || !strings.Contains(string(out), "signature="+sigToken(v.Signature)) {
+						okBoth = false
+						break
+					}
+				}
+				if okBoth {
+					v.Choices, v.Labels = cand, nil
+					confirmed = true
 					break
 				}
 			}
 			os.Remove(tmp)
+			if !confirmed {
+				v.Signature = "unstable:" + v.Signature
+				v.Detail = "NOT REPRODUCIBLE IN A FRESH PROCESS from any of the recorded schedules (the verdict depended on earlier executions of the exploring process).\n" + v.Detail + "\nlast replay output:\n" + firstLines(string(lastOut), 10)
+			}
 		} else if !strings.HasPrefix(v.Signature, "worker-death:") {
 			// re-run twice from the recorded choice vector: the observation must be identical
 			var sc *Scenario
